@@ -13,6 +13,10 @@ THEOREMS = [
     "Spowtd.components_partition",
     "Spowtd.components_separated",
     "Spowtd.minimiser_unique_mod_shift",
+    "Spowtd.components_connected",
+    "Spowtd.components_series",
+    "Spowtd.mainComponent_spec",
+    "Spowtd.main_body_connected",
 ]
 TRUSTED_BASE = [
     "Lean 4.33 kernel; axioms propext, Classical.choice, Quot.sound only (audited per theorem on every run)",
@@ -89,6 +93,7 @@ def run(ctx):
     n = 60 if ctx.tier == "quick" else 1500
     rng = ctx.rng
     run_relabel(ctx, 200 if ctx.tier == "quick" else 5000)
+    run_components(ctx, 300 if ctx.tier == "quick" else 10000)
     ob_model = "kept intervals and aligned curve of get_series_time_offsets = model assemble over Rat"
     ob_meta = "same master curve and relative alignment under reordering / axis shifts / change of the internal zero"
     for _ in range(n):
@@ -190,6 +195,66 @@ def run(ctx):
             ctx.corr_break(ob_model, {"input": inp, "impl": {"offsets": offsets, "master": master}, "model": mod})
 
 
+def run_components(ctx, n):
+    """`get_connected_components` on arbitrary level -> series mappings in arbitrary dictionary order (non-monotone
+    intervals make a level bridge several groups that are still separate when it is visited): the groups must be the
+    connected components of the overlap graph (independent union-find) and equal the model's `components`."""
+    import spowtd.fit_offsets as fo
+    rng = ctx.rng
+    ob = "get_connected_components = model components (as a partition of the levels), largest first"
+    for _ in range(n):
+        nser = rng.randint(2, 12)
+        nlev = rng.randint(2, 14)
+        m = {}
+        for k in rng.sample(range(-20, 20), nlev):
+            m[k] = set(rng.sample(range(nser), rng.randint(1, min(3, nser))))
+        items = list(m.items())
+        rng.shuffle(items)
+        m = dict(items)
+        inp = {"function": "fit_offsets.get_connected_components", "series_at_head": {str(k): sorted(v) for k, v in m.items()}}
+        try:
+            got = [tuple(c) for c in fo.get_connected_components({k: set(v) for k, v in m.items()})]
+            err = None
+        except Exception as e:  # noqa
+            got, err = None, "%s: %s" % (type(e).__name__, e)
+        # union-find on levels through shared series
+        parent = {k: k for k in m}
+
+        def find(x):
+            while parent[x] != x:
+                parent[x] = parent[parent[x]]
+                x = parent[x]
+            return x
+        owner = {}
+        for k, ser in m.items():
+            for s_ in ser:
+                if s_ in owner:
+                    parent[find(k)] = find(owner[s_])
+                else:
+                    owner[s_] = k
+        want = {}
+        for k in m:
+            want.setdefault(find(k), set()).add(k)
+        want = sorted((frozenset(v) for v in want.values()), key=lambda c: sorted(c))
+        ctx.case(("components", str(inp)), len(want) < len(m))
+        mod = ctx.driver.call("components.q", {"mapping": [[k, [[s_, "0"] for s_ in sorted(v)]] for k, v in m.items()]})
+        mod_parts = sorted((frozenset(g[0]) for g in mod["components"]), key=lambda c: sorted(c))
+        ok_model = mod_parts == want
+        if err is not None:
+            ok = False
+        else:
+            parts = sorted((frozenset(c) for c in got), key=lambda c: sorted(c))
+            ok = parts == want and [len(c) for c in got] == sorted((len(c) for c in got), reverse=True)
+        ctx.obligation(ob, ok and ok_model)
+        if not ok:
+            ctx.violation("impl-violation", "mainBodyComplete", {"input": inp, "impl": err or [list(c) for c in got], "oracle": {
+                "name": "mainBodyComplete", "result": False,
+                "witness": {"why": "levels linked by a chain of shared intervals are not in one group (or groups not largest first)",
+                            "connected_components": [sorted(c) for c in want]}}})
+        elif not ok_model:
+            ctx.corr_break(ob, {"input": inp, "model": mod})
+
+
 def run_relabel(ctx, n):
     """find_offsets with the series ids permuted and each series' crossing values shifted by a constant: a
     different series becomes the internal zero; differences of (offset + shift) between series must not change."""
@@ -206,11 +271,28 @@ def run_relabel(ctx, n):
         m2 = {h: [(pi[s], t + c[s]) for s, t in v] for h, v in m.items()}
         items = list(m2.items())
         ctx.rng.shuffle(items)
+        inp_r = {"function": "fit_offsets.find_offsets", "head_mapping": {str(k): v for k, v in m.items()},
+                 "relabelling": {str(k): v for k, v in pi.items()}, "axis_shifts": {str(k): v for k, v in c.items()}}
         try:
             i1, o1 = fo.find_offsets({k: list(v) for k, v in m.items()})
+        except Exception as e:  # noqa
+            # (the generated mappings are proper and connected: theorem solveOffsets_total says a minimiser exists)
+            ctx.count("find_offsets_raises")
+            ctx.corr_break(ob, {"input": inp_r, "impl": "%s: %s" % (type(e).__name__, e),
+                                "no_longer_checks": "find_offsets returns offsets on a proper connected mapping"})
+            continue
+        try:
             i2, o2 = fo.find_offsets({k: list(v) for k, v in items})
         except Exception as e:  # noqa
-            ctx.count("find_offsets_raises")
+            ctx.case(("relabel", str(m), str(perm)), True)
+            ctx.obligation(ob, False)
+            ctx.violation("impl-violation", "c08Holds", {"input": inp_r, "impl": "%s: %s" % (type(e).__name__, e), "oracle": {
+                "name": "c08Holds", "result": False,
+                "witness": {"why": "find_offsets raises once the series are relabelled / shifted / presented in another order"}}})
+            continue
+        if len(i1) != len(o1) or len(i2) != len(o2):
+            ctx.violation("impl-violation", "c08Holds", {"input": inp_r, "impl": [len(i1), len(o1), len(i2), len(o2)], "oracle": {
+                "name": "c08Holds", "result": False, "witness": {"why": "series ids and offsets returned with different lengths"}}})
             continue
         a = {int(s): float(o) for s, o in zip(i1, o1)}
         inv = {v: k for k, v in pi.items()}
